@@ -181,13 +181,13 @@ class AdvancedHTMLFormatter(HTMLParser):
         if self.inPreformatted == 0:
             newTag._indent = self._getIndent()
 
-        if tagName in PREFORMATTED_TAGS:
-            self.inPreformatted += 1
-
         if isSelfClosing is False:
             inTag.append(newTag)
             if tagName != INVISIBLE_ROOT_TAG:
                 self.currentIndentLevel += 1
+            # Only an element that stays open has preformatted content (and an end tag that leaves it again)
+            if tagName in PREFORMATTED_TAGS:
+                self.inPreformatted += 1
 
 
     def handle_startendtag(self, tagName, attributeList):
@@ -412,13 +412,13 @@ def handle_starttag_slim(self, tagName, attributeList, isSelfClosing=False):
     if self.inPreformatted == 0:
         newTag._indent = self._getIndent()
 
-    if tagName in PREFORMATTED_TAGS:
-        self.inPreformatted += 1
-
     if isSelfClosing is False:
         inTag.append(newTag)
         if tagName != INVISIBLE_ROOT_TAG:
             self.currentIndentLevel += 1
+        # Only an element that stays open has preformatted content (and an end tag that leaves it again)
+        if tagName in PREFORMATTED_TAGS:
+            self.inPreformatted += 1
 
 
 class AdvancedHTMLSlimTagFormatter(AdvancedHTMLFormatter):
